@@ -3543,64 +3543,9 @@ func c02TaskContext(c *Ctx) {
 // replaces the copy's error by nil.
 func c02DeferredResultWrites(c *Ctx, f *ssa.Function) {
 	const R3 = "C02.R3.error-surfacing"
-	errIdx := ErrResultIndex(f.Signature)
-	if errIdx < 0 {
-		return
+	for i, w := range DeferredResultWrites(f) {
+		c.Check(R3, fmt.Sprintf("%s|deferred-result-write#%d", FnName(w.Writer), i+1), w.Store.Pos(), w.Keeps != "",
+			ifelse(w.Keeps != "", "the deferred assignment of the enclosing function's error result keeps a failure: "+w.Keeps,
+				"the deferred code overwrites the error result of "+FnName(f)+" after the return value was set: a failure of the function body is replaced by "+describe(w.Store.Val)+", which may be nil (the call reports success, or a waiting task is never released)"))
 	}
-	cells := map[*ssa.Alloc]bool{}
-	for _, r := range Returns(f) {
-		if a := cellOf(r.Results[errIdx]); a != nil {
-			cells[a] = true
-		}
-	}
-	if len(cells) == 0 {
-		return
-	}
-	n := 0
-	AllInstrs(f, func(in ssa.Instruction) {
-		d, ok := in.(*ssa.Defer)
-		if !ok {
-			return
-		}
-		mc, ok := d.Call.Value.(*ssa.MakeClosure)
-		if !ok {
-			return
-		}
-		g := mc.Fn.(*ssa.Function)
-		for j, bnd := range mc.Bindings {
-			a, isAlloc := bnd.(*ssa.Alloc)
-			if !isAlloc || !cells[a] {
-				continue
-			}
-			fv := g.FreeVars[j]
-			loads := map[ssa.Value]bool{}
-			for _, ref := range *fv.Referrers() {
-				if ld, isLd := ref.(*ssa.UnOp); isLd && ld.Op == token.MUL {
-					for al := range Aliases(ld) {
-						loads[al] = true
-					}
-				}
-			}
-			nilE, _, _ := NilTests(g, loads)
-			for _, ref := range *fv.Referrers() {
-				st, isSt := ref.(*ssa.Store)
-				if !isSt || st.Addr != ssa.Value(fv) {
-					continue
-				}
-				n++
-				how := ""
-				switch {
-				case ErrNilStatus(st.Val, 0) == NonNil:
-					how = "it stores a non-nil error"
-				case loads[st.Val] || loads[strip(st.Val)] || derivesFromAny(st.Val, loads, 0):
-					how = "the stored value is built from the current result"
-				case len(nilE) > 0 && MustPass(st, newCut().Edges(nilE...)):
-					how = "it executes only where the current result was found nil"
-				}
-				c.Check(R3, fmt.Sprintf("%s|deferred-result-write#%d", FnName(g), n), st.Pos(), how != "",
-					ifelse(how != "", "the deferred assignment of the enclosing function's error result keeps a failure: "+how,
-						"the deferred closure overwrites the error result of "+FnName(f)+" after the return value was set: a failure of the function body is replaced by "+describe(st.Val)+", which may be nil (the call reports success, or a waiting task is never released)"))
-			}
-		}
-	})
 }
